@@ -27,7 +27,7 @@ func init() {
 		Assumptions: []string{"run spans far less than the 6 h tombstone expiry of the durable backend", "payload bytes (event values) are not compared, only times and activity"},
 	})
 	kernel.Register(&kernel.World{
-		Property: "C13", Bubble: false, Run: func(c *kernel.Ctx) { runC13(c) }, RunsPerProc: 1500,
+		Property: "C13", Bubble: true, Run: func(c *kernel.Ctx) { runC13(c) }, RunsPerProc: 1500,
 		Rule: "two campaigns chosen by the tape. (1) the C04 world, where for EVERY merge the returned delta is compared with the difference computed independently from the receiver's entries before and the payload: exactly the keys whose add or remove time advanced, only the advanced times, nil iff nothing advanced. (2) real cluster.Swarm instances on the simulated mesh: Notify calls, relays and periodic gossip are queued on one or several link senders while the senders are stalled; when a sender runs, the bytes it emits are decoded and must carry, per key, the maximum add and remove time over every payload that was queued on that link, also when the same payload object sits on several links; non-trivial = a merge with a non-empty delta / a send that coalesced >= 2 payloads; distinct = distinct canonical logs",
 		Real:  []string{"event.State.Merge", "crdt.Volatile.Merge", "crdt.Durable.Merge", "cluster.Swarm (Notify, Gossip, OnGossip, OnGossipBroadcast, merge)"},
 		Stub:  []string{"weaveworks/mesh (simmesh: sender slots transcribed from gossip.go: pending = pending.Merge(new))", "replica clocks (crdt.Now seam)"},
@@ -313,6 +313,11 @@ func (w *crWorld) deliver(p *crPayload) {
 		}
 	}
 	w.verify(r, "merge")
+	for _, o := range w.reps {
+		if o != r {
+			w.verify(o, "merge-elsewhere") // a merge must not disturb any other replica (aliasing)
+		}
+	}
 	// relay the delta (as the gossip library does) to a tape-chosen subset
 	if delta != nil && len(gotDelta) > 0 {
 		content := gotDelta
@@ -320,11 +325,20 @@ func (w *crWorld) deliver(p *crPayload) {
 			content = expDelta
 		}
 		enc := delta.Encode()[0]
+		direct := false
 		for _, o := range w.reps {
 			if o == r || o.idx == p.from || !c.Tape.Chance(1, 2) {
 				continue
 			}
-			w.inflight = append(w.inflight, &crPayload{from: r.idx, to: o.idx, bytes: enc, content: content.clone(), what: "delta"})
+			q := &crPayload{from: r.idx, to: o.idx, bytes: enc, content: content.clone(), what: "delta"}
+			if !direct && c.Tape.Chance(1, 3) {
+				// zero encode/decode hops: the very object Merge returned is merged elsewhere
+				// (this is what the gossip library's send queue does with a relayed delta)
+				direct = true
+				q.obj, q.bytes, q.what = delta.(*event.State), nil, "delta-object"
+				c.Probe("delta-object-relayed")
+			}
+			w.inflight = append(w.inflight, q)
 		}
 	}
 }
